@@ -4,6 +4,50 @@
 //! One current-thread tokio runtime with a paused clock per case; all instants are virtual.
 //! The expected schedule is computed here from the statement ("sent up to 7 times with a
 //! doubling 500 ms timeout"): t_i = 500 ms * (2^i - 1), i = 0..6.
+//!
+//! What is generated
+//!  * client_schedule: every answered/lost pattern of the 7 transmissions x {all right id, all wrong
+//!    id, first wrong then right} x 4 response delays (the schedule space, exhaustive), crossed with
+//!    the SHAPE of the exchange (what the messages look like, which the statement quantifies over by
+//!    saying nothing else than "matched by transaction id"):
+//!      - class of the delivered messages: success response, error response (both are "its
+//!        response", RFC 8489 section 6.3.3 / 6.3.4), and the two non-response classes (request,
+//!        indication) carrying the id of the pending request;
+//!      - content of the delivered messages: header only, or attributes (curated success / error
+//!        bodies: XOR-MAPPED-ADDRESS, 401 + REALM + NONCE, 300 + ALTERNATE-SERVER, 420 +
+//!        UNKNOWN-ATTRIBUTES, 438 + MESSAGE-INTEGRITY-SHA256, ... and attribute sets drawn from the
+//!        codec generator `gen::message`), with and without MESSAGE-INTEGRITY / FINGERPRINT;
+//!      - the transaction id (fixed pattern, all zero, all one, only the lowest / highest bit, zero
+//!        low 64 bits, zero high 32 bits, ...) and which of its 96 bits differs in a wrong-id message;
+//!      - content of the request itself (header only, SOFTWARE, authenticated request).
+//!    Quick: every schedule x {success, error} x {header only, one pooled body} and x {request,
+//!    indication} x one body, ids / request shapes rotating.  Thorough: every schedule x 4 classes x
+//!    every pooled body.
+//!  * client_concurrent: 2 or 3 requests pending at the same time on one endpoint (staggered starts,
+//!    ids that differ in one bit / only in the high 32 bits / only in the low 64 bits), each answered
+//!    (success or error, with or without attributes) at one of its transmissions or never, plus the
+//!    same id used again by a later call after the first one ended.
+//!  * client_cleanup: send_to failing at each transmission; the future dropped on a grid of
+//!    instants; afterwards a late message of each class with the request's id.
+//!
+//! Oracle (from the statement only)
+//!  * transmissions exactly at t_i until the response, same bytes, same target; the call returns
+//!    at the instant its response is delivered, with that very message (same bytes, same class);
+//!  * a message with another id never completes the call and reaches StunEndpointUser::receive;
+//!    further messages with the right id after completion reach the user, too (no entry left);
+//!  * with several requests pending, each call is completed by the response carrying ITS id and is
+//!    not disturbed by the others; the number of entries after each return equals the number of
+//!    calls still running;
+//!  * 0 entries after return / error / drop.
+//!
+//! Not asserted
+//!  * whether a REQUEST or INDICATION carrying the pending id completes the call: the statement
+//!    speaks of "its response" only. Both readings (taken as the response like ezk does today / handed
+//!    to the user while the call continues) are accepted as a whole; everything else is asserted
+//!    under the reading observed;
+//!  * give-up instant 39.5 s (RFC Rm = 16) or 63.5 s (pure doubling);
+//!  * reliable transports, methods other than Binding (ezk's parser knows no other), source
+//!    address of the response, two calls pending with the SAME id.
 
 use crate::engine::*;
 use crate::refmodel::ref_stun::*;
@@ -11,6 +55,7 @@ use parking_lot::Mutex;
 use serde::{Deserialize, Serialize};
 use std::io;
 use std::net::SocketAddr;
+use std::sync::Arc;
 use std::time::Duration;
 use stun::{IncomingMessage, Request, StunEndpoint, StunEndpointUser, TransportInfo};
 use stun_types::parse::ParsedMessage;
@@ -30,8 +75,8 @@ struct MockUser {
     t0: Instant,
     /// (virtual microseconds since t0, bytes, target)
     sends: Mutex<Vec<(u64, Vec<u8>, SocketAddr)>>,
-    /// (virtual microseconds, transaction id) handed to `receive`
-    received: Mutex<Vec<(u64, u128)>>,
+    /// (virtual microseconds, transaction id, bytes) handed to `receive`
+    received: Mutex<Vec<(u64, u128, Vec<u8>)>>,
     /// the n-th call (0-based) of `send_to` fails
     fail_on: Option<usize>,
     /// virtual milliseconds `send_to` itself takes (an await point inside the transport)
@@ -64,24 +109,28 @@ impl StunEndpointUser for MockUser {
     }
 
     async fn receive(&self, message: IncomingMessage<MockTp>) {
-        self.received.lock().push((self.now_us(), message.message.tsx_id));
+        self.received.lock().push((self.now_us(), message.message.tsx_id, message.message.buffer().to_vec()));
     }
 }
 
+
 const TID: [u8; 12] = [0x01, 0x23, 0x45, 0x67, 0x89, 0xab, 0xcd, 0xef, 0x10, 0x32, 0x54, 0x76];
+
+fn default_tid() -> [u8; 12] {
+    TID
+}
+
+fn default_class() -> RClass {
+    RClass::Success
+}
 
 fn tid_u128(t: &[u8; 12]) -> u128 {
     t.iter().fold(0u128, |v, b| (v << 8) | *b as u128)
 }
 
-fn request_bytes() -> Vec<u8> {
-    encode(&RMsg { class: RClass::Request, method: 1, tid: TID, attrs: vec![], tail: vec![] })
-}
-
-/// header-only messages: the client checks do not depend on attribute handling of the codec
-fn response(tid: [u8; 12]) -> ParsedMessage {
-    let b = encode(&RMsg { class: RClass::Success, method: 1, tid, attrs: vec![], tail: vec![] });
-    ParsedMessage::parse(b).expect("response parses")
+/// Binding message of the given class, reference-encoded
+fn msg_bytes(class: RClass, tid: [u8; 12], attrs: &[RAttr], tail: &[RTail]) -> Vec<u8> {
+    encode(&RMsg { class, method: 1, tid, attrs: attrs.to_vec(), tail: tail.to_vec() })
 }
 
 /// expected transmission instants in ms
@@ -101,6 +150,117 @@ fn target() -> SocketAddr {
     "192.0.2.10:3478".parse().unwrap()
 }
 
+fn new_user(t0: Instant, fail_on: Option<usize>, send_delay_ms: u64) -> MockUser {
+    MockUser { t0, sends: Mutex::new(vec![]), received: Mutex::new(vec![]), fail_on, send_delay_ms }
+}
+
+fn class_name(c: RClass) -> &'static str {
+    match c {
+        RClass::Success => "success-response",
+        RClass::Error => "error-response",
+        RClass::Request => "request",
+        RClass::Indication => "indication",
+    }
+}
+
+fn is_response(c: RClass) -> bool {
+    matches!(c, RClass::Success | RClass::Error)
+}
+
+// --- shapes of the exchange: message bodies, transaction ids, requests ------------------------------------------
+
+/// attributes + protection tail of a message
+#[derive(Clone, Debug, PartialEq)]
+pub struct Body {
+    pub attrs: Vec<RAttr>,
+    pub tail: Vec<RTail>,
+}
+
+fn short(pw: &str) -> RKey {
+    RKey::ShortTerm { password: pw.into() }
+}
+
+fn long_md5() -> RKey {
+    RKey::LongTermMd5 { user: "user".into(), realm: "example.org".into(), password: "secret".into() }
+}
+
+/// bodies a server really sends with the given class (RFC 8489 sections 6.3.3, 6.3.4, 9.2.4, 10, 14.8);
+/// for the non-response classes: what a peer's own request / indication looks like
+fn curated_bodies(class: RClass) -> Vec<Body> {
+    let b = |attrs: Vec<RAttr>, tail: Vec<RTail>| Body { attrs, tail };
+    let err = |code: u16, reason: &str| RAttr::ErrorCode { code, reason: reason.into() };
+    let v4 = RAddr::V4 { ip: [192, 0, 2, 1], port: 32853 };
+    let v6 = RAddr::V6 { ip: [0x20, 0x01, 0x0d, 0xb8, 0x12, 0x34, 0x56, 0x78, 0, 0x11, 0x22, 0x33, 0x44, 0x55, 0x66, 0x77], port: 32853 };
+    match class {
+        RClass::Success => vec![
+            b(vec![RAttr::XorMappedAddress(v4)], vec![]),
+            b(vec![RAttr::XorMappedAddress(v6), RAttr::Software("test vector".into())], vec![RTail::Integrity(short("VOkJxbRl1RmTxUk/WvJxBt")), RTail::Fingerprint]),
+            b(vec![RAttr::MappedAddress(v4), RAttr::XorMappedAddress(v4)], vec![RTail::Fingerprint]),
+            b(vec![RAttr::XorMappedAddress(v4)], vec![RTail::IntegritySha256(long_md5())]),
+        ],
+        RClass::Error => vec![
+            b(vec![err(401, "Unauthenticated"), RAttr::Realm("example.org".into()), RAttr::Nonce(b"f//499k954d6OL34oL9FSTvy64sA".to_vec())], vec![]),
+            b(vec![err(400, "")], vec![]),
+            b(vec![err(300, "Try Alternate"), RAttr::AlternateServer(v4)], vec![]),
+            b(vec![err(420, "Unknown Attribute"), RAttr::UnknownAttributes(vec![0x0030, 0x8040])], vec![RTail::Fingerprint]),
+            b(vec![err(438, "Stale Nonce"), RAttr::Realm("example.org".into()), RAttr::Nonce(b"obMatJos2AAACf//".to_vec())], vec![RTail::IntegritySha256(long_md5())]),
+            b(vec![err(500, "Server Error"), RAttr::Software("srv".into())], vec![RTail::Integrity(long_md5()), RTail::Fingerprint]),
+        ],
+        RClass::Request | RClass::Indication => vec![
+            b(vec![RAttr::Software("peer".into())], vec![]),
+            b(vec![RAttr::Username("evtj:h6vY".into())], vec![RTail::Integrity(short("VOkJxbRl1RmTxUk/WvJxBt")), RTail::Fingerprint]),
+            b(vec![], vec![RTail::Fingerprint]),
+        ],
+    }
+}
+
+/// curated bodies of the class followed by attribute sets of the codec generator (fixed seed: the
+/// pool is the same in every run; a case stores the body itself, not an index into the pool)
+fn body_pool(class: RClass) -> Vec<Body> {
+    let mut v = curated_bodies(class);
+    for (i, m) in sample_strategy(&super::gen::message(), 0xC20, 60).into_iter().enumerate() {
+        // every other one without protection attributes (the generator attaches them to most messages)
+        let body = Body { tail: if i % 2 == 1 && !m.attrs.is_empty() { vec![] } else { m.tail }, attrs: m.attrs };
+        if (body.attrs.is_empty() && body.tail.is_empty()) || v.contains(&body) {
+            continue;
+        }
+        v.push(body);
+        if v.len() >= 20 {
+            break;
+        }
+    }
+    v
+}
+
+fn tid_pool() -> Vec<[u8; 12]> {
+    let mut low = [0u8; 12];
+    low[11] = 1;
+    let mut high = [0u8; 12];
+    high[0] = 0x80;
+    vec![
+        TID,
+        [0u8; 12],
+        [0xffu8; 12],
+        low,
+        high,
+        // low 64 bits zero / high 32 bits zero / zero tail: ids a truncating table key would confuse
+        [0xde, 0xad, 0xbe, 0xef, 0, 0, 0, 0, 0, 0, 0, 0],
+        [0, 0, 0, 0, 0x5a, 0x11, 0x22, 0x33, 0x44, 0x55, 0x66, 0x77],
+        [0x9c, 0x01, 0x7f, 0x80, 0xff, 0x00, 0x13, 0x37, 0, 0, 0, 0],
+    ]
+}
+
+fn req_pool() -> Vec<Body> {
+    vec![
+        Body { attrs: vec![], tail: vec![] },
+        Body { attrs: vec![RAttr::Software("ezk-verif client".into())], tail: vec![] },
+        Body {
+            attrs: vec![RAttr::Username("user".into()), RAttr::Realm("example.org".into()), RAttr::Nonce(b"obMatJos2AAACf//".to_vec())],
+            tail: vec![RTail::Integrity(long_md5()), RTail::Fingerprint],
+        },
+    ]
+}
+
 // --- schedule ---------------------------------------------------------------------------------------------------
 
 #[derive(Clone, Debug, Hash, PartialEq, Eq, Serialize, Deserialize)]
@@ -114,17 +274,30 @@ pub struct ScheduleCase {
     pub delay: u8,
     /// which bit of the id differs in a wrong-id response
     pub wrong_bit: u8,
+    /// class of every delivered message (replays written before this field existed: success)
+    #[serde(default = "default_class")]
+    pub class: RClass,
+    /// transaction id of the request
+    #[serde(default = "default_tid")]
+    pub tid: [u8; 12],
+    /// attributes / protection tail of every delivered message
+    #[serde(default)]
+    pub attrs: Vec<RAttr>,
+    #[serde(default)]
+    pub tail: Vec<RTail>,
+    /// attributes / protection tail of the request
+    #[serde(default)]
+    pub req_attrs: Vec<RAttr>,
+    #[serde(default)]
+    pub req_tail: Vec<RTail>,
 }
 
-pub fn schedule_cases(_tier: Tier) -> Vec<ScheduleCase> {
+/// (answered, wrong_id, delay): all 2^7 loss patterns x {right id, wrong id, wrong-then-right} x 4 delays
+fn base_schedules() -> Vec<(u8, u8, u8)> {
     let mut v = vec![];
     for answered in 0u8..128 {
         let first = if answered == 0 { 0 } else { 1u8 << answered.trailing_zeros() };
-        let mut wrongs = vec![0u8, answered, first];
-        wrongs.dedup();
-        if answered == 0 {
-            wrongs = vec![0];
-        }
+        let wrongs = if answered == 0 { vec![0u8] } else { vec![0u8, answered, first] };
         let mut seen = vec![];
         for w in wrongs {
             if seen.contains(&w) {
@@ -132,7 +305,49 @@ pub fn schedule_cases(_tier: Tier) -> Vec<ScheduleCase> {
             }
             seen.push(w);
             for delay in 0u8..4 {
-                v.push(ScheduleCase { answered, wrong_id: w, delay, wrong_bit: (answered.wrapping_mul(13).wrapping_add(delay * 31)) % 96 });
+                v.push((answered, w, delay));
+            }
+        }
+    }
+    v
+}
+
+pub fn schedule_cases(tier: Tier) -> Vec<ScheduleCase> {
+    let classes = [RClass::Success, RClass::Error, RClass::Request, RClass::Indication];
+    let pools: Vec<Vec<Body>> = classes.iter().map(|c| body_pool(*c)).collect();
+    let tids = tid_pool();
+    let reqs = req_pool();
+    let empty = Body { attrs: vec![], tail: vec![] };
+    let mut v = vec![];
+    for (n, &(answered, wrong_id, delay)) in base_schedules().iter().enumerate() {
+        for (ci, &class) in classes.iter().enumerate() {
+            let pool = &pools[ci];
+            // None: header only
+            let picks: Vec<Option<usize>> = match tier {
+                Tier::Thorough => std::iter::once(None).chain((0..pool.len()).map(Some)).collect(),
+                Tier::Quick if is_response(class) => vec![None, Some((n + ci) % pool.len())],
+                Tier::Quick => vec![if n % 4 == 0 { None } else { Some(n % pool.len()) }],
+            };
+            for (k, pick) in picks.iter().enumerate() {
+                // the plain exchange (header-only success response, header-only request, fixed id)
+                // is kept for every schedule; every other shape rotates ids and request contents
+                let plain = class == RClass::Success && pick.is_none();
+                let salt = n * 7 + ci * 3 + k;
+                let body = pick.map_or(&empty, |i| &pool[i]);
+                let req = if plain { &empty } else { &reqs[salt % reqs.len()] };
+                let base_bit = answered.wrapping_mul(13).wrapping_add(delay * 31) as usize;
+                v.push(ScheduleCase {
+                    answered,
+                    wrong_id,
+                    delay,
+                    wrong_bit: (if plain { base_bit % 96 } else { (base_bit + salt * 5) % 96 }) as u8,
+                    class,
+                    tid: if plain { TID } else { tids[salt % tids.len()] },
+                    attrs: body.attrs.clone(),
+                    tail: body.tail.clone(),
+                    req_attrs: req.attrs.clone(),
+                    req_tail: req.tail.clone(),
+                });
             }
         }
     }
@@ -159,10 +374,40 @@ fn arrival(i: usize, delay: u8) -> u64 {
     }
 }
 
+fn id_class(tid: &[u8; 12]) -> &'static str {
+    if *tid == TID {
+        "id:fixed-pattern"
+    } else if *tid == [0u8; 12] {
+        "id:all-zero"
+    } else if *tid == [0xffu8; 12] {
+        "id:all-one"
+    } else if tid.iter().filter(|b| **b != 0).count() == 1 {
+        "id:single-bit"
+    } else if tid[4..] == [0u8; 8] {
+        "id:low-64-bits-zero"
+    } else if tid[..4] == [0u8; 4] {
+        "id:high-32-bits-zero"
+    } else if tid[8..] == [0u8; 4] {
+        "id:zero-tail"
+    } else {
+        "id:other"
+    }
+}
+
 pub fn check_schedule(case: &ScheduleCase, out: &mut CaseOut) {
-    out.nontrivial(case);
-    let mut wrong_tid = TID;
+    let mut wrong_tid = case.tid;
     wrong_tid[(case.wrong_bit / 8) as usize] ^= 1 << (case.wrong_bit % 8);
+    let right_bytes = msg_bytes(case.class, case.tid, &case.attrs, &case.tail);
+    let wrong_bytes = msg_bytes(case.class, wrong_tid, &case.attrs, &case.tail);
+    let bytes = msg_bytes(RClass::Request, case.tid, &case.req_attrs, &case.req_tail);
+    let id = tid_u128(&case.tid);
+
+    // whether ezk's parser reads reference-encoded messages is the business of sub-check ref_decode
+    if ParsedMessage::parse(right_bytes.clone()).is_err() || ParsedMessage::parse(wrong_bytes.clone()).is_err() {
+        out.class("skipped:ezk-refuses-the-reference-encoded-message(see ref_decode)");
+        return;
+    }
+    out.nontrivial(case);
 
     // script of arrivals: (ms, right id?)
     let mut arrivals: Vec<(u64, bool)> = (0..7)
@@ -171,60 +416,41 @@ pub fn check_schedule(case: &ScheduleCase, out: &mut CaseOut) {
         .collect();
     arrivals.sort();
 
-    // ---- expected, from the statement
-    let t_star = arrivals.iter().find(|(_, right)| *right).map(|(t, _)| *t);
-    let exp_sends: Vec<u64> = (0..7).map(t_send).filter(|t| t_star.map_or(true, |ts| *t < ts)).collect();
-    let exp_received: Vec<(u64, bool)> = {
-        let mut first_right_used = false;
-        arrivals
-            .iter()
-            .filter(|(_, right)| {
-                if *right && !first_right_used {
-                    first_right_used = true;
-                    false
-                } else {
-                    true
-                }
-            })
-            .cloned()
-            .collect()
-    };
-    out.class(match t_star {
-        Some(_) => "answered-with-right-id",
-        None if case.answered == 0 => "never-answered",
-        None => "only-wrong-ids",
+    out.class(match case.class {
+        RClass::Success => "class:success-response",
+        RClass::Error => "class:error-response",
+        RClass::Request => "class:request-with-the-pending-id",
+        RClass::Indication => "class:indication-with-the-pending-id",
     });
-    out.class(match exp_sends.len() {
-        1 => "transmissions:1",
-        2..=6 => "transmissions:2-6",
-        _ => "transmissions:7",
+    out.class(if !case.tail.is_empty() {
+        "body:protected"
+    } else if !case.attrs.is_empty() {
+        "body:attributes"
+    } else {
+        "body:header-only"
     });
+    out.class(id_class(&case.tid));
+    out.class(if case.req_attrs.is_empty() && case.req_tail.is_empty() { "request:header-only" } else { "request:with-attributes" });
     if case.delay == 3 {
         out.class("late-response");
     }
 
     // ---- run ezk
     let rt = runtime();
-    let bytes = request_bytes();
     let (result, t_ret, pending_after, sends, received) = rt.block_on(async {
         let t0 = Instant::now();
-        let ep = StunEndpoint::new(MockUser {
-            t0,
-            sends: Mutex::new(vec![]),
-            received: Mutex::new(vec![]),
-            fail_on: None,
-            send_delay_ms: 0,
-        });
+        let ep = StunEndpoint::new(new_user(t0, None, 0));
         let tp = MockTp { reliable: false };
         let call = async {
-            let r = ep.send_request(Request { bytes: &bytes, tsx_id: tid_u128(&TID), transport: &tp }, target()).await;
+            let r = ep.send_request(Request { bytes: &bytes, tsx_id: id, transport: &tp }, target()).await;
             let t = (Instant::now() - t0).as_micros() as u64;
             (r, t, ep.verif_pending())
         };
         let script = async {
             for (t, right) in &arrivals {
                 tokio::time::sleep_until(t0 + Duration::from_millis(*t)).await;
-                let msg = response(if *right { TID } else { wrong_tid });
+                let b = if *right { right_bytes.clone() } else { wrong_bytes.clone() };
+                let msg = ParsedMessage::parse(b).expect("parsed before");
                 ep.receive(msg, target(), MockTp { reliable: false }).await;
             }
         };
@@ -233,9 +459,78 @@ pub fn check_schedule(case: &ScheduleCase, out: &mut CaseOut) {
         let received = ep.user().received.lock().clone();
         (r, t, p, sends, received)
     });
+    let got_sends: Vec<u64> = sends.iter().map(|s| s.0).collect();
+    out.note = Some(format!("sends at {got_sends:?} us; returned at {t_ret} us"));
+
+    // ---- expected, from the statement
+    // first delivered message with the request's id
+    let t_first = arrivals.iter().find(|(_, right)| *right).map(|(t, _)| *t);
+    let completed = match &result {
+        Ok(Some(_)) => true,
+        Ok(None) => false,
+        Err(e) => {
+            out.fail("c20.client/unexpected-error", format!("{e}"));
+            return;
+        }
+    };
+    // t_done: the instant at which the call is completed by a delivered message, under the reading
+    // that applies (responses: must be t_first; request / indication with the id: either reading)
+    let t_done = match (t_first, completed) {
+        (Some(ts), true) => Some(ts),
+        (Some(ts), false) => {
+            if is_response(case.class) {
+                out.fail(
+                    format!("c20.client/{}-not-matched", class_name(case.class)),
+                    format!("{} with the id of the pending request delivered at {ts} ms, call returned None at {t_ret} us", class_name(case.class)),
+                );
+            }
+            None
+        }
+        (None, false) => None,
+        (None, true) => {
+            let rid = result.as_ref().ok().and_then(|o| o.as_ref()).map(|m| m.tsx_id).unwrap_or(0);
+            out.fail(
+                "c20.client/completed-by-wrong-id",
+                format!("no message with the request's id was delivered, yet the call returned a message with id {rid:#x}"),
+            );
+            if pending_after != 0 {
+                out.fail("c20.client/pending-after-return", format!("{pending_after} transaction entries after send_request returned"));
+            }
+            return;
+        }
+    };
+    if !is_response(case.class) && t_first.is_some() {
+        out.class(if completed { "non-response-with-the-pending-id:completes-the-call" } else { "non-response-with-the-pending-id:handed-to-user" });
+    }
+    out.class(match (t_done, t_first) {
+        (Some(_), _) => "answered-with-right-id",
+        (None, Some(_)) => "right-id-not-taken-as-response",
+        (None, None) if case.answered == 0 => "never-answered",
+        (None, None) => "only-wrong-ids",
+    });
+    let exp_sends: Vec<u64> = (0..7).map(t_send).filter(|t| t_done.map_or(true, |ts| *t < ts)).collect();
+    out.class(match exp_sends.len() {
+        1 => "transmissions:1",
+        2..=6 => "transmissions:2-6",
+        _ => "transmissions:7",
+    });
+    let exp_received: Vec<(u64, bool)> = {
+        let mut taken = t_done.is_none();
+        arrivals
+            .iter()
+            .filter(|(_, right)| {
+                if *right && !taken {
+                    taken = true;
+                    false
+                } else {
+                    true
+                }
+            })
+            .cloned()
+            .collect()
+    };
 
     // ---- compare
-    let got_sends: Vec<u64> = sends.iter().map(|s| s.0).collect();
     let exp_sends_us: Vec<u64> = exp_sends.iter().map(|t| t * 1000).collect();
     if got_sends != exp_sends_us {
         let sig = if got_sends.len() != exp_sends_us.len() { "c20.client/transmission-count" } else { "c20.client/transmission-times" };
@@ -246,47 +541,355 @@ pub fn check_schedule(case: &ScheduleCase, out: &mut CaseOut) {
             out.fail("c20.client/retransmission-differs", "retransmitted bytes or target differ from the request");
         }
     }
-    match (&result, t_star) {
+    match (&result, t_done) {
         (Ok(Some(msg)), Some(ts)) => {
-            if msg.tsx_id != tid_u128(&TID) {
+            if msg.tsx_id != id {
                 out.fail("c20.client/response-with-foreign-id", format!("returned response has id {:#x}", msg.tsx_id));
+            } else if msg.buffer() != &right_bytes[..] || super::ezk::from_ezk_class(msg.class) != case.class {
+                out.fail(
+                    "c20.client/returned-message-differs",
+                    format!("returned message (class {:?}, {} bytes) is not the delivered one (class {:?}, {} bytes)", msg.class, msg.buffer().len(), case.class, right_bytes.len()),
+                );
             }
             if t_ret != ts * 1000 {
                 out.fail("c20.client/return-time", format!("returned at {t_ret} us, response arrived at {} us", ts * 1000));
             }
         }
-        (Ok(None), None) => {
+        _ => {
             // give-up instant: 63.5 s (doubling, the statement) or 39.5 s (RFC 8489 Rm = 16)
             if t_ret != 63_500_000 && t_ret != 39_500_000 {
                 out.fail("c20.client/give-up-time", format!("returned None at {t_ret} us"));
             }
         }
-        (Ok(Some(msg)), None) => out.fail(
-            "c20.client/completed-by-wrong-id",
-            format!("no response with the request's id was delivered, yet the call returned a response with id {:#x}", msg.tsx_id),
-        ),
-        (Ok(None), Some(ts)) => out.fail("c20.client/response-not-matched", format!("response with the right id at {ts} ms, call returned None")),
-        (Err(e), _) => out.fail("c20.client/unexpected-error", format!("{e}")),
     }
-    let got_recv: Vec<(u64, bool)> = received.iter().map(|(t, id)| (*t / 1000, *id == tid_u128(&TID))).collect();
+    let got_recv: Vec<(u64, bool)> = received.iter().map(|(t, rid, _)| (*t / 1000, *rid == id)).collect();
     if got_recv != exp_received {
         out.fail(
             "c20.client/unmatched-responses-to-user",
             format!("StunEndpointUser::receive saw {got_recv:?} (ms, right id), expected {exp_received:?}"),
         );
+    } else if received.iter().any(|(_, rid, b)| *b != if *rid == id { &right_bytes[..] } else { &wrong_bytes[..] }) {
+        out.fail("c20.client/message-to-user-differs", "a message handed to StunEndpointUser::receive is not the delivered one");
     }
     if pending_after != 0 {
         out.fail("c20.client/pending-after-return", format!("{pending_after} transaction entries after send_request returned"));
     }
-    out.note = Some(format!("sends at {got_sends:?} us; returned at {t_ret} us"));
+}
+
+// --- several requests pending at the same time ----------------------------------------------------------------
+
+#[derive(Clone, Debug, Hash, PartialEq, Eq, Serialize, Deserialize)]
+pub struct CallSpec {
+    /// virtual instant at which send_request is called
+    pub start_ms: u64,
+    pub tid: [u8; 12],
+    /// (transmission that is answered, delay selector as in ScheduleCase); None: never answered
+    pub answer: Option<(u8, u8)>,
+    /// class of the response: Success or Error
+    pub class: RClass,
+    /// response with the curated attributes of its class, or header only
+    pub with_body: bool,
+}
+
+#[derive(Clone, Debug, Hash, PartialEq, Eq, Serialize, Deserialize)]
+pub struct ConcurrentCase {
+    pub calls: Vec<CallSpec>,
+}
+
+impl CallSpec {
+    fn arrival_ms(&self) -> Option<u64> {
+        self.answer.map(|(i, d)| self.start_ms + arrival(i as usize, d))
+    }
+    fn response_bytes(&self) -> Vec<u8> {
+        let body = if self.with_body { curated_bodies(self.class).swap_remove(0) } else { Body { attrs: vec![], tail: vec![] } };
+        msg_bytes(self.class, self.tid, &body.attrs, &body.tail)
+    }
+    /// every instant at which something may happen in this call
+    fn instants(&self) -> Vec<u64> {
+        let mut v: Vec<u64> = (0..7).map(|i| self.start_ms + t_send(i)).collect();
+        v.extend(self.arrival_ms());
+        v.push(self.start_ms + 39_500);
+        v.push(self.start_ms + 63_500);
+        v
+    }
+}
+
+/// Timing ties between different calls are don't-cares: such cases are not generated. Two calls
+/// with the same id are only generated one after the other (the second starts after the first
+/// has certainly ended).
+fn admissible_concurrent(c: &ConcurrentCase) -> bool {
+    for (a, x) in c.calls.iter().enumerate() {
+        for y in &c.calls[a + 1..] {
+            let (ix, iy) = (x.instants(), y.instants());
+            if ix.iter().any(|t| iy.contains(t)) {
+                return false;
+            }
+            if x.tid == y.tid && y.start_ms <= x.start_ms + 63_500 && x.start_ms <= y.start_ms + 63_500 {
+                return false;
+            }
+        }
+    }
+    true
+}
+
+pub fn concurrent_cases(tier: Tier) -> Vec<ConcurrentCase> {
+    let flip = |byte: usize, mask: u8| {
+        let mut t = TID;
+        t[byte] ^= mask;
+        t
+    };
+    let mut high32 = TID;
+    high32[..4].copy_from_slice(&[0xfe, 0xdc, 0xba, 0x98]);
+    let mut low64 = TID;
+    for b in low64[4..].iter_mut() {
+        *b = !*b;
+    }
+    // (id of the first call, id of the second call, start offsets of the second call)
+    let near: &[u64] = &[137, 611, 2003];
+    let pairs: Vec<([u8; 12], [u8; 12], &[u64])> = vec![
+        (TID, flip(11, 0x01), near),
+        (TID, flip(0, 0x80), near),
+        (TID, high32, near),
+        (TID, low64, near),
+        ([0u8; 12], [0xffu8; 12], near),
+        // the same id again, after the first call has ended
+        (TID, TID, &[70_007]),
+    ];
+    let answers: Vec<Option<(u8, u8)>> = match tier {
+        Tier::Quick => vec![None, Some((0, 0)), Some((0, 3)), Some((1, 1)), Some((2, 2)), Some((4, 0))],
+        Tier::Thorough => std::iter::once(None).chain((0u8..=5).flat_map(|i| (0u8..4).map(move |d| Some((i, d))))).collect(),
+    };
+    let class_pairs = [(RClass::Success, RClass::Success), (RClass::Success, RClass::Error), (RClass::Error, RClass::Success), (RClass::Error, RClass::Error)];
+    let mut v = vec![];
+    let mut n = 0usize;
+    for (ta, tb, offsets) in &pairs {
+        for &off in offsets.iter() {
+            for a0 in &answers {
+                for a1 in &answers {
+                    for (c0, c1) in class_pairs {
+                        n += 1;
+                        v.push(ConcurrentCase {
+                            calls: vec![
+                                CallSpec { start_ms: 0, tid: *ta, answer: *a0, class: c0, with_body: n % 2 == 0 },
+                                CallSpec { start_ms: off, tid: *tb, answer: *a1, class: c1, with_body: n % 3 == 0 },
+                            ],
+                        });
+                    }
+                }
+            }
+        }
+    }
+    // three calls
+    let small: Vec<Option<(u8, u8)>> = vec![None, Some((0, 3)), Some((1, 1)), Some((2, 2))];
+    for a0 in &small {
+        for a1 in &small {
+            for a2 in &small {
+                for flipc in [false, true] {
+                    n += 1;
+                    let c = |x: bool| if x != flipc { RClass::Error } else { RClass::Success };
+                    v.push(ConcurrentCase {
+                        calls: vec![
+                            CallSpec { start_ms: 0, tid: TID, answer: *a0, class: c(false), with_body: n % 2 == 0 },
+                            CallSpec { start_ms: 137, tid: flip(11, 0x01), answer: *a1, class: c(true), with_body: n % 3 == 0 },
+                            CallSpec { start_ms: 611, tid: flip(0, 0x80), answer: *a2, class: c(false), with_body: n % 5 == 0 },
+                        ],
+                    });
+                }
+            }
+        }
+    }
+    v.retain(admissible_concurrent);
+    v
+}
+
+pub fn check_concurrent(case: &ConcurrentCase, out: &mut CaseOut) {
+    let calls = &case.calls;
+    let responses: Vec<Vec<u8>> = calls.iter().map(|c| c.response_bytes()).collect();
+    if responses.iter().any(|b| ParsedMessage::parse(b.clone()).is_err()) {
+        out.class("skipped:ezk-refuses-the-reference-encoded-message(see ref_decode)");
+        return;
+    }
+    out.nontrivial(case);
+    out.class(match calls.len() {
+        2 => "calls:2",
+        _ => "calls:3",
+    });
+    if calls.iter().enumerate().any(|(a, x)| calls[a + 1..].iter().any(|y| x.tid == y.tid)) {
+        out.class("same-id-again-after-the-call-ended");
+    }
+    match calls.iter().filter(|c| c.answer.is_some()).count() {
+        0 => out.class("answered:none"),
+        n if n == calls.len() => out.class("answered:all"),
+        _ => out.class("answered:some"),
+    }
+    if calls.iter().any(|c| c.class == RClass::Error && c.answer.is_some()) {
+        out.class("error-response");
+    }
+    // does a response overtake the response of a call that was started earlier?
+    let arr: Vec<Option<u64>> = calls.iter().map(|c| c.arrival_ms()).collect();
+    if (0..calls.len()).any(|a| (a + 1..calls.len()).any(|b| matches!((arr[a], arr[b]), (Some(x), Some(y)) if y < x))) {
+        out.class("responses-out-of-call-order");
+    }
+
+    // ---- run ezk
+    type CallResult = (Result<Option<(u128, Vec<u8>)>, String>, u64, usize);
+    let rt = runtime();
+    let (results, sends, received, pending_end): (Vec<CallResult>, _, _, usize) = rt.block_on(async {
+        let t0 = Instant::now();
+        let ep = Arc::new(StunEndpoint::new(new_user(t0, None, 0)));
+        let mut handles = vec![];
+        for c in calls.iter() {
+            let ep = ep.clone();
+            let bytes = msg_bytes(RClass::Request, c.tid, &[], &[]);
+            let (start, id) = (c.start_ms, tid_u128(&c.tid));
+            handles.push(tokio::spawn(async move {
+                tokio::time::sleep_until(t0 + Duration::from_millis(start)).await;
+                let tp = MockTp { reliable: false };
+                let r = ep.send_request(Request { bytes: &bytes, tsx_id: id, transport: &tp }, target()).await;
+                let t = (Instant::now() - t0).as_micros() as u64;
+                let p = ep.verif_pending();
+                (r.map(|o| o.map(|m| (m.tsx_id, m.buffer().to_vec()))).map_err(|e| e.to_string()), t, p)
+            }));
+        }
+        let mut script: Vec<(u64, usize)> = arr.iter().enumerate().filter_map(|(k, a)| a.map(|t| (t, k))).collect();
+        script.sort();
+        for (t, k) in script {
+            tokio::time::sleep_until(t0 + Duration::from_millis(t)).await;
+            let msg = ParsedMessage::parse(responses[k].clone()).expect("parsed before");
+            ep.receive(msg, target(), MockTp { reliable: false }).await;
+        }
+        let mut results = vec![];
+        for h in handles {
+            results.push(h.await.expect("call task"));
+        }
+        let sends = ep.user().sends.lock().clone();
+        let received = ep.user().received.lock().clone();
+        (results, sends, received, ep.verif_pending())
+    });
+
+    // ---- compare
+    // a response that is not taken for the response of its call changes everything that follows
+    // (retransmissions go on, the message reaches the user, the entry stays): report the cause only
+    let mut unmatched = false;
+    for (k, c) in calls.iter().enumerate() {
+        if let (Ok(Some((rid, _))), _, _) = &results[k] {
+            if *rid != tid_u128(&c.tid) {
+                unmatched = true;
+                out.fail("c20.concurrent/response-of-another-call", format!("call {:#x} returned the message with id {rid:#x}", tid_u128(&c.tid)));
+            }
+        }
+        if let ((Ok(None), t_ret, _), Some(a)) = (&results[k], arr[k]) {
+            unmatched = true;
+            out.fail(
+                format!("c20.concurrent/{}-not-matched", class_name(c.class)),
+                format!("{} for call {:#x} delivered at {a} ms, call returned None at {t_ret} us", class_name(c.class), tid_u128(&c.tid)),
+            );
+        }
+    }
+    if unmatched {
+        if pending_end != 0 {
+            out.fail("c20.concurrent/pending-after-all-calls", format!("{pending_end} transaction entries after every call returned"));
+        }
+        return;
+    }
+    // call by call
+    let mut ids: Vec<[u8; 12]> = vec![];
+    for c in calls.iter() {
+        if !ids.contains(&c.tid) {
+            ids.push(c.tid);
+        }
+    }
+    for tid in &ids {
+        // transmissions carry the id of their call (bytes 8..20 of the request)
+        let mut exp: Vec<u64> = vec![];
+        for (k, c) in calls.iter().enumerate().filter(|(_, c)| c.tid == *tid) {
+            exp.extend((0..7).map(t_send).filter(|t| arr[k].map_or(true, |a| c.start_ms + *t < a)).map(|t| (c.start_ms + t) * 1000));
+        }
+        exp.sort();
+        let got: Vec<u64> = sends.iter().filter(|(_, b, _)| b.len() >= 20 && b[8..20] == tid[..]).map(|s| s.0).collect();
+        if got != exp {
+            let sig = if got.len() != exp.len() { "c20.concurrent/transmission-count" } else { "c20.concurrent/transmission-times" };
+            out.fail(sig, format!("request {:#x}: send_to called at {got:?} us, expected {exp:?} us", tid_u128(tid)));
+        }
+    }
+    if sends.iter().any(|(_, b, tgt)| *tgt != target() || !calls.iter().any(|c| *b == msg_bytes(RClass::Request, c.tid, &[], &[]))) {
+        out.fail("c20.concurrent/retransmission-differs", "a transmission is none of the requests, or goes to another target");
+    }
+    for (k, c) in calls.iter().enumerate() {
+        let (result, t_ret, pending) = &results[k];
+        let id = tid_u128(&c.tid);
+        let t_end_ms = match (result, arr[k]) {
+            (Err(e), _) => {
+                out.fail("c20.concurrent/unexpected-error", e.clone());
+                continue;
+            }
+            (Ok(Some((rid, b))), Some(a)) => {
+                if *rid == id && *b != responses[k] {
+                    out.fail("c20.concurrent/returned-message-differs", format!("call {id:#x} returned a message that is not the delivered one"));
+                }
+                if *t_ret != a * 1000 {
+                    out.fail("c20.concurrent/return-time", format!("call {id:#x} returned at {t_ret} us, its response arrived at {} us", a * 1000));
+                }
+                a
+            }
+            (Ok(None), Some(_)) => unreachable!("reported above"),
+            (Ok(Some((rid, _))), None) => {
+                out.fail("c20.concurrent/completed-by-wrong-id", format!("call {id:#x} was never answered, yet returned a message with id {rid:#x}"));
+                continue;
+            }
+            (Ok(None), None) => {
+                let rel = t_ret.wrapping_sub(c.start_ms * 1000);
+                if rel != 63_500_000 && rel != 39_500_000 {
+                    out.fail("c20.concurrent/give-up-time", format!("call {id:#x} started at {} ms returned None at {t_ret} us", c.start_ms));
+                    continue;
+                }
+                t_ret / 1000
+            }
+        };
+        // entries right after this call returned = calls still running at that instant (only when
+        // that number does not depend on which of the two give-up instants is implemented)
+        let mut running = 0usize;
+        let mut unknown = false;
+        for (j, o) in calls.iter().enumerate() {
+            if j == k || o.start_ms > t_end_ms {
+                continue;
+            }
+            match arr[j] {
+                Some(a) => running += (a > t_end_ms) as usize,
+                None if t_end_ms < o.start_ms + 39_500 => running += 1,
+                None if t_end_ms > o.start_ms + 63_500 => {}
+                None => unknown = true,
+            }
+        }
+        if !unknown && *pending != running {
+            out.fail(
+                "c20.concurrent/pending-at-return",
+                format!("{pending} transaction entries right after call {id:#x} returned at {t_ret} us, {running} other calls are running"),
+            );
+        }
+    }
+    if !received.is_empty() {
+        let l: Vec<(u64, u128)> = received.iter().map(|(t, rid, _)| (*t, *rid)).collect();
+        out.fail("c20.concurrent/response-handed-to-user", format!("every response answers a pending call, yet StunEndpointUser::receive saw {l:x?}"));
+    }
+    if pending_end != 0 {
+        out.fail("c20.concurrent/pending-after-all-calls", format!("{pending_end} transaction entries after every call returned"));
+    }
+    out.note = Some(format!("returns at {:?} us", results.iter().map(|r| r.1).collect::<Vec<_>>()));
 }
 
 // --- cleanup ----------------------------------------------------------------------------------------------------------
 
 #[derive(Clone, Debug, Hash, PartialEq, Eq, Serialize, Deserialize)]
 pub enum CleanupCase {
-    /// the future is dropped after `after_ms` of virtual time
-    Drop { after_ms: u64, send_delay_ms: u64 },
+    /// the future is dropped after `after_ms` of virtual time; afterwards a message of class
+    /// `late` with the id of the request is delivered
+    Drop {
+        after_ms: u64,
+        send_delay_ms: u64,
+        #[serde(default = "default_class")]
+        late: RClass,
+    },
     /// the n-th `send_to` fails
     SendErr { at: usize, send_delay_ms: u64 },
 }
@@ -312,7 +915,9 @@ pub fn cleanup_cases(tier: Tier) -> Vec<CleanupCase> {
         grid.sort();
         grid.dedup();
         for &after_ms in &grid {
-            v.push(CleanupCase::Drop { after_ms, send_delay_ms });
+            for late in [RClass::Success, RClass::Error, RClass::Request, RClass::Indication] {
+                v.push(CleanupCase::Drop { after_ms, send_delay_ms, late });
+            }
         }
     }
     for at in 0..7 {
@@ -330,20 +935,14 @@ pub fn check_cleanup(case: &CleanupCase, out: &mut CaseOut) {
         CleanupCase::SendErr { at, send_delay_ms } => (Some(*at), *send_delay_ms),
     };
     let rt = runtime();
-    let bytes = request_bytes();
+    let bytes = msg_bytes(RClass::Request, TID, &[], &[]);
     rt.block_on(async {
         let t0 = Instant::now();
-        let ep = StunEndpoint::new(MockUser {
-            t0,
-            sends: Mutex::new(vec![]),
-            received: Mutex::new(vec![]),
-            fail_on,
-            send_delay_ms,
-        });
+        let ep = StunEndpoint::new(new_user(t0, fail_on, send_delay_ms));
         let tp = MockTp { reliable: false };
         let req = Request { bytes: &bytes, tsx_id: tid_u128(&TID), transport: &tp };
         match case {
-            CleanupCase::Drop { after_ms, .. } => {
+            CleanupCase::Drop { after_ms, late, .. } => {
                 let r = tokio::time::timeout(Duration::from_millis(*after_ms), ep.send_request(req, target())).await;
                 let pending = ep.verif_pending();
                 let n_sends = ep.user().sends.lock().len();
@@ -369,10 +968,18 @@ pub fn check_cleanup(case: &CleanupCase, out: &mut CaseOut) {
                     }
                     Ok(other) => out.fail("c20.client/unexpected-result", format!("unanswered request returned {:?}", other.map(|o| o.map(|m| m.tsx_id)))),
                 }
-                // a late response must now go to the user, not to a stale entry
-                ep.receive(response(TID), target(), MockTp { reliable: false }).await;
+                // a late message with the id must now go to the user, not to a stale entry (whatever
+                // its class: no reading lets a message complete a call that has ended)
+                out.class(match late {
+                    RClass::Success => "late:success-response",
+                    RClass::Error => "late:error-response",
+                    RClass::Request => "late:request",
+                    RClass::Indication => "late:indication",
+                });
+                let late_msg = ParsedMessage::parse(msg_bytes(*late, TID, &[], &[])).expect("header-only message parses");
+                ep.receive(late_msg, target(), MockTp { reliable: false }).await;
                 if ep.user().received.lock().len() != 1 {
-                    out.fail("c20.client/late-response-not-forwarded", "response after the call ended was not handed to StunEndpointUser::receive");
+                    out.fail("c20.client/late-response-not-forwarded", "message after the call ended was not handed to StunEndpointUser::receive");
                 }
                 if ep.verif_pending() != 0 {
                     out.fail("c20.client/pending-after-drop", "entry left after late response");
